@@ -144,6 +144,12 @@ func (m *EndpointManager) CleanupOrphaned(activeEndpoints map[string]bool) {
 
 	for url := range m.endpointStates {
 		if !activeEndpoints[url] {
+			// An endpoint whose unification keeps failing has no models in the catalogue, which is
+			// exactly what makes it look orphaned: a breaker that is open, probing, or still counting
+			// failures is live state and has to outlive the housekeeping.
+			if cb, exists := m.circuitBreakers[url]; exists && (cb.GetState() != CircuitClosed || cb.GetStats().Failures > 0) {
+				continue
+			}
 			delete(m.endpointStates, url)
 			delete(m.endpointFailures, url)
 			delete(m.lastEndpointCheck, url)
